@@ -441,7 +441,10 @@ func init() {
 	})
 }
 
-func c09AppReplay(ops []engine.Op) []engine.Violation {
+func c09AppReplay(ops []engine.Op) []engine.Violation { return appReplay(ops, c09AppObserver) }
+
+// appReplay re-executes an "App:" path with an observer.
+func appReplay(ops []engine.Op, mkObs func() appObserver) []engine.Violation {
 	var path []int
 	for _, o := range ops {
 		name := strings.TrimPrefix(o.Kind, "App:")
@@ -451,7 +454,7 @@ func c09AppReplay(ops []engine.Op) []engine.Violation {
 			}
 		}
 	}
-	r := appExec(path, 3, c09AppObserver)
+	r := appExec(path, 3, mkObs)
 	if r.Fail != nil {
 		return []engine.Violation{c05AppViolation(path, r).Violation}
 	}
